@@ -11,7 +11,7 @@
 //!  sim    in=<cells.json> out=<sim.json> seed=N
 //!         Monte-Carlo of the *mathematical model* (three independent exponential minima, cell map
 //!         with clipping): validates the oracle formula, does not touch the code under test.
-use pmh_verif::sketchers::{SsParams, SsU16, SsU32};
+use pmh_verif::sketchers::{ss_default_u16, ss_default_u32, SsParams, SsU16, SsU32};
 use pmh_verif::util::*;
 use probminhash::setsketcher::SetSketchParams;
 use rand::Rng;
@@ -152,9 +152,9 @@ fn trial(c: &Cell, seed: u64, stream: u64, parts: bool) -> Option<(usize, u64)> 
     let ids: Vec<u64> = (0..(nu + nv + nw)).map(|_| rng.random::<u64>()).collect();
     let r = catch(|| {
         macro_rules! go {
-            ($t:ident) => {{
-                let mut sa = $t::new(p);
-                let mut sb = $t::new(p);
+            ($mk:expr) => {{
+                let mut sa = $mk;
+                let mut sb = $mk;
                 for id in &ids[0..nu] {
                     sa.0.sketch(id).unwrap();
                 }
@@ -170,9 +170,9 @@ fn trial(c: &Cell, seed: u64, stream: u64, parts: bool) -> Option<(usize, u64)> 
                 let kb = sb.0.get_signature();
                 let mut bad = 0u64;
                 if parts {
-                    let mut su = $t::new(p);
-                    let mut sv = $t::new(p);
-                    let mut sw = $t::new(p);
+                    let mut su = $mk;
+                    let mut sv = $mk;
+                    let mut sw = $mk;
                     for id in &ids[0..nu] {
                         su.0.sketch(id).unwrap();
                     }
@@ -192,10 +192,12 @@ fn trial(c: &Cell, seed: u64, stream: u64, parts: bool) -> Option<(usize, u64)> 
                 (ka.iter().zip(kb.iter()).filter(|(x, y)| x == y).count(), bad)
             }};
         }
-        if c.reg == "u16" {
-            go!(SsU16)
-        } else {
-            go!(SsU32)
+        match c.reg.as_str() {
+            "u16" => go!(SsU16::new(p)),
+            // sketchers built through `Default` (their parameters are those of SetSketchParams::default())
+            "def16" => go!(ss_default_u16()),
+            "def32" => go!(ss_default_u32()),
+            _ => go!(SsU32::new(p)),
         }
     });
     r.ok()
@@ -209,6 +211,21 @@ fn freq(a: &Args) {
     for c in cells.iter() {
         let t0 = std::time::Instant::now();
         let m = c.m as usize;
+        if c.reg.starts_with("def") {
+            // the cell was written for the documented default parameters: if the crate's defaults are others, skip it
+            let d = catch(|| {
+                let s = ss_default_u16();
+                (s.1, s.0.get_signature().len())
+            });
+            let same = match d {
+                Ok((p, len)) => p.b == c.b && p.a == c.a && p.q == c.q && p.m == c.m && len == m,
+                Err(_) => true, // a panic of the constructor is reported by the trials below
+            };
+            if !same {
+                res.push(json!({"hist": vec![0u64; m + 1], "panics": 0, "parts_trials": 0, "parts_mismatch": 0, "skipped": true, "wall_ms": 0}));
+                continue;
+            }
+        }
         let nparts = if c.nu + c.nv + c.nw <= 5000 { 32u64 } else { 0 };
         let (hist, panics, bad) = (0..c.trials)
             .into_par_iter()
